@@ -46,6 +46,7 @@ type config struct {
 	CheckLast int   `json:"checklast"`
 	Proofs    int   `json:"proofs"` // proofs mode: probes per tree state
 	BitFlips  int   `json:"bitflips"`
+	DenseIdx  bool  `json:"denseidx"` // GetByIndex / GetWithIndex on the same stride as Get (3..7) instead of 4x that
 	NoFast    bool  `json:"nofast"`   // open every handle without the fast index / fast storage (C25: not its subject)
 	SvSample  int   `json:"svsample"` // version steps: contents of this many retained versions are swept (0 = all); hashes always of all
 	Seed      int64 `json:"seed"`     // replay of a stored case: the seed of its sampled sweeps
@@ -138,6 +139,7 @@ type env struct {
 	pruned, reopenedAfterPrune bool
 	drift                      int    // iavl: prunes refused after a restart (see step "Prune")
 	prevWk                     string // history key of the working tree after the previous step
+	touch                      []int  // key ids around the span of the last write: index reads are compared on all of them
 	tainted                    bool
 	taintOnDisk                bool // ... and a SaveVersion wrote the stale fast nodes into the DB
 }
@@ -291,10 +293,10 @@ func (e *env) sweep(r reader, w []int, who string, full bool) (string, string) {
 		}
 	}
 	istride := stride
-	if nk > 64 && !full {
+	if nk > 64 && !full && !e.cfg.DenseIdx {
 		istride = stride * 4
 	}
-	for k := 1 + off; k <= nk; k += istride {
+	withIndex := func(k int) (string, string) {
 		idx, val, err := r.GetWithIndex(e.keys[k])
 		if err != nil {
 			return "GetWithIndex", fmt.Sprintf("%s: GetWithIndex(%q) failed: %v", who, e.keys[k], err)
@@ -302,9 +304,25 @@ func (e *env) sweep(r reader, w []int, who string, full bool) (string, string) {
 		if int(idx) != rank(p, k) || e.valID(val) != w[k-1] {
 			return "GetWithIndex", fmt.Sprintf("%s: GetWithIndex(%q) = (%d, value id %d), the map says (%d, %d)", who, e.keys[k], idx, e.valID(val), rank(p, k), w[k-1])
 		}
+		return "", ""
+	}
+	for k := 1 + off; k <= nk; k += istride {
+		if a, b := withIndex(k); a != "" {
+			return a, b
+		}
+	}
+	// the region around the keys the last write touched: every key, and every index next to them
+	near := map[int]bool{}
+	for _, k := range e.touch {
+		if k >= 1 && k <= nk {
+			if a, b := withIndex(k); a != "" {
+				return a, b
+			}
+			near[rank(p, k)] = true
+		}
 	}
 	for i := -1; i <= len(p); i++ {
-		if i > 0 && i < len(p)-1 && (i-off)%istride != 0 {
+		if i > 0 && i < len(p)-1 && (i-off)%istride != 0 && !near[i] {
 			continue
 		}
 		k, v, err := r.GetByIndex(int64(i))
@@ -442,6 +460,24 @@ func (e *env) setRange(from, cnt int, asc bool, f func(k int) error) error {
 	return nil
 }
 
+// touched: the keys within 40 of both ends of the span a write worked on
+func (e *env) touched(from, cnt int) {
+	e.touch = e.touch[:0]
+	to := from + cnt - 1
+	if to > e.cfg.NK {
+		to = e.cfg.NK
+	}
+	seen := map[int]bool{}
+	for _, c := range []int{from, to} {
+		for k := c - 40; k <= c+40; k++ {
+			if k >= 1 && k <= e.cfg.NK && !seen[k] {
+				seen[k] = true
+				e.touch = append(e.touch, k)
+			}
+		}
+	}
+}
+
 func (e *env) valOf(k, salt int) []byte { return e.vals[(k+salt)%e.cfg.NV+1] }
 
 func (e *env) step(s mbt.Step) *failure {
@@ -450,6 +486,7 @@ func (e *env) step(s mbt.Step) *failure {
 	switch act {
 	case "Init", "Finish":
 	case "Set":
+		e.touched(s.Int("k"), 1)
 		upd, err := e.t.Set(e.key(s.Int("k")), e.vals[s.Int("v")])
 		got := "new"
 		switch {
@@ -481,6 +518,7 @@ func (e *env) step(s mbt.Step) *failure {
 			return e.fail(act, "reply", fmt.Sprintf("Set with %s: %s (%v), spec %v", s.Str("cls"), got, err, exp))
 		}
 	case "Remove":
+		e.touched(s.Int("k"), 1)
 		old, found, err := e.t.Remove(e.key(s.Int("k")))
 		got := "absent"
 		switch {
@@ -505,6 +543,7 @@ func (e *env) step(s mbt.Step) *failure {
 		}
 		var err error
 		if act == "Fill" {
+			e.touched(s.Int("from"), s.Int("cnt"))
 			err = e.setRange(s.Int("from"), s.Int("cnt"), s.Bool("asc"), put)
 		} else {
 			for k := s.Int("off"); k <= e.cfg.NK && err == nil; k += s.Int("stride") {
@@ -514,9 +553,14 @@ func (e *env) step(s mbt.Step) *failure {
 		if err != nil || n != s.Int("reply") {
 			return e.fail(act, "reply", fmt.Sprintf("%s: %d existing keys updated, error %v; spec %d", mbt.JS(s), n, err, s.Int("reply")))
 		}
-	case "RemoveRange":
+	case "RemoveRange", "Thin":
 		n := 0
-		err := e.setRange(s.Int("from"), s.Int("cnt"), s.Bool("asc"), func(k int) error {
+		from, period, keep := s.Int("from"), s.Int("period"), s.Int("keep")
+		e.touched(from, s.Int("cnt"))
+		err := e.setRange(from, s.Int("cnt"), s.Bool("asc"), func(k int) error {
+			if act == "Thin" && (k-from)%period < keep {
+				return nil
+			}
 			_, found, err := e.t.Remove(e.keys[k])
 			if found {
 				n++
@@ -524,7 +568,7 @@ func (e *env) step(s mbt.Step) *failure {
 			return err
 		})
 		if err != nil || n != s.Int("reply") {
-			return e.fail(act, "reply", fmt.Sprintf("RemoveRange(%d, %d): %d keys removed, error %v; spec %d", s.Int("from"), s.Int("cnt"), n, err, s.Int("reply")))
+			return e.fail(act, "reply", fmt.Sprintf("%s: %d keys removed, error %v; spec %d", mbt.JS(map[string]any{"from": from, "cnt": s.Int("cnt"), "period": period, "keep": keep}), n, err, s.Int("reply")))
 		}
 	case "SaveVersion":
 		h, v, err := e.t.SaveVersion()
